@@ -238,6 +238,41 @@ def fit_shard(i):
 
 
 # ---- run-time errors -----------------------------------------------------------------------------------------
+def check_runtime(prog, st, mode, dc, exp_err):
+    """Run the program; returns ((field, detail) or None, whether a typed run-time error was raised)."""
+    sim = rv.make_sim(mode, prog, st["regs"], st["words"], dcache=dc)
+    err = None
+    other = None
+    try:
+        n = 0
+        while not sim.is_done() and n < 400:
+            sim.step()
+            n += 1
+    except InstructionExecutionException as e:
+        err = e
+    except Exception as e:  # noqa
+        other = e
+    d = None
+    if other is not None:
+        d = ("untyped-runtime-error", f"step() raised {type(other).__name__}: {other}")
+    elif err is not None:
+        a = err.address
+        if not isinstance(a, int) or a % 4 or not (0 <= a < 4 * len(prog)):
+            d = ("bad-address", f"error carries address {a!r}")
+        elif err.instruction_repr != repr(rv.impl_of(prog[a // 4], a)):
+            d = ("bad-instruction-text", f"error at {a} carries {err.instruction_repr!r}, the instruction there prints as {rv.impl_of(prog[a // 4], a)!r}")
+        elif dc is None and a != exp_err:
+            d = ("wrong-address", f"error reported at {a}, the faulting instruction is at {exp_err}")
+        else:
+            sys.last_value = err
+            cls = webgui.get_last_error()
+            if cls[0] != "InstructionExecutionException" or cls[2] != a:
+                d = ("front-end-classification", f"front end classifies the error as {cls[0]!r} / {cls[2:]!r}")
+    elif dc is None and exp_err is not None:
+        d = ("fault-not-reported", f"the program faults at {exp_err} but no error was raised")
+    return d, err is not None
+
+
 def runtime_shard(shard):
     seed, length, first = shard
     H = alpha.hazard_alphabet(seed, True) + [("lw", 1, 3, 0, 1), ("sh", 0, 3, 2, 3)]  # two misaligned accesses (rejected only with a data cache)
@@ -260,39 +295,11 @@ def runtime_shard(shard):
             continue
         for mode in (rv.SINGLE, rv.FIVE):
             for dc in ((None, rv.cache_opts(1, 0, 1, "wt", "lru", 1)) if exp.err is None or mis else (None, rv.cache_opts(0, 1, 2, "wb", "plru", 0))):
-                sim = rv.make_sim(mode, prog, st["regs"], st["words"], dcache=dc)
                 p.evaluations += 1
                 p.nontrivial += 1
-                err = None
-                other = None
-                try:
-                    n = 0
-                    while not sim.is_done() and n < 400:
-                        sim.step()
-                        n += 1
-                except InstructionExecutionException as e:
-                    err = e
-                except Exception as e:  # noqa
-                    other = e
-                d = None
-                if other is not None:
-                    d = ("untyped-runtime-error", f"step() raised {type(other).__name__}: {other}")
-                elif err is not None:
-                    a = err.address
-                    if not isinstance(a, int) or a % 4 or not (0 <= a < 4 * len(prog)):
-                        d = ("bad-address", f"error carries address {a!r}")
-                    elif err.instruction_repr != repr(rv.impl_of(prog[a // 4], a)):
-                        d = ("bad-instruction-text", f"error at {a} carries {err.instruction_repr!r}, the instruction there prints as {rv.impl_of(prog[a // 4], a)!r}")
-                    elif dc is None and a != exp.err:
-                        d = ("wrong-address", f"error reported at {a}, the faulting instruction is at {exp.err}")
-                    else:
-                        sys.last_value = err
-                        cls = webgui.get_last_error()
-                        if cls[0] != "InstructionExecutionException" or cls[2] != a:
-                            d = ("front-end-classification", f"front end classifies the error as {cls[0]!r} / {cls[2:]!r}")
+                d, raised = check_runtime(prog, st, mode, dc, exp.err)
+                if raised:
                     p.counters["runtime-fault" + ("-with-cache" if dc is not None else "")] += 1
-                elif dc is None and exp.err is not None:
-                    d = ("fault-not-reported", f"the program faults at {exp.err} but no error was raised")
                 if d:
                     p.violation(dict(oracle="runtime-error-typing", field=d[0]), dict(kind="runtime", prog=[list(i) for i in prog], seed=seed, mode=mode, cache=dc is not None),
                                 f"[{rv.prog_text(prog)}] {mode} cache={'on' if dc is not None else 'off'}: {d[1]}", size=(length, idx))
@@ -340,18 +347,16 @@ def replay(case):
     else:
         prog = [tuple(i) for i in case["prog"]]
         st = alpha.init_states(case["seed"], 1)[0]
-        dc = rv.cache_opts(1, 0, 1, "wt", "lru", 1) if case["cache"] else None
-        sim = rv.make_sim(case["mode"], prog, st["regs"], st["words"], dcache=dc)
-        try:
-            n = 0
-            while not sim.is_done() and n < 400:
-                sim.step()
-                n += 1
-        except InstructionExecutionException:
-            return []
-        except Exception as e:  # noqa
-            return [(dict(oracle="runtime-error-typing", field="untyped-runtime-error"), repr(e))]
-        return []
+        pd = {4 * i: ins for i, ins in enumerate(prog)}
+        r, m = rv.ref_state(st["regs"], st["words"])
+        exp = rv32.run_seq(pd, r, m, 24)
+        mis = any(ins[0] in ("lw", "sh") and ins[4] in (1, 3) for ins in prog)
+        if not case["cache"]:
+            dc = None
+        else:
+            dc = rv.cache_opts(1, 0, 1, "wt", "lru", 1) if exp.err is None or mis else rv.cache_opts(0, 1, 2, "wb", "plru", 0)
+        d, _r = check_runtime(prog, st, case["mode"], dc, exp.err)
+        return [(dict(oracle="runtime-error-typing", field=d[0]), d[1])] if d else []
     return [(lst[0][1], lst[0][3]) for _k, (n, lst) in part.viol.items()]
 
 
